@@ -688,6 +688,8 @@ def run_c10(chk):
         # declarations supplied by attribute-list defaults are wanted here; entity references are not
         d["dtd"] = None if d["dtd"] is None or "ATTLIST" not in d["dtd"] else d["dtd"]
         t = G.render_doc(d).replace("&e1;", "t")
+        if d["dtd"] is None:
+            t = t.replace("&e2;", "t")
         docs.append(d)
         extra = [_spell(rng, eg.nodeset(0)) for _ in range(4)]
         es = NS_BATTERY + extra
